@@ -4,7 +4,10 @@
    matches just before a final newline -- optionally one trailing "\n".  Only ASCII digits are
    modelled (Python's \d also accepts other Unicode decimal digits; stated in the notes). *)
 From Coq Require Import List NArith ZArith Bool Lia.
-From NB Require Import Base.Res Base.Json Diff.DiffFormat Diff.Codec.
+From NB Require Import Base.Res.
+From NB Require Import Base.Json.
+From NB Require Import Diff.DiffFormat.
+From NB Require Import Diff.Codec.
 Import ListNotations.
 
 Definition path := list key.
